@@ -42,6 +42,8 @@ struct Alloc {
     next_res: usize,
     next_handler: usize,
     start: usize,
+    /// resources already used by a read-like member of the type under construction
+    read_used: Vec<usize>,
 }
 
 impl Alloc {
@@ -64,7 +66,23 @@ fn gen_leaf(src: &mut Src, a: &mut Alloc) -> Ty {
     if kind >= 8 {
         return if kind == 8 { Ty::Unit } else { Ty::Phantom };
     }
-    match a.res() {
+    // one read-like member in six names a resource that another read-like member of the same type
+    // names already (several shared borrows of one resource, possibly through different accessor
+    // kinds: default-providing, expecting, optional, custom handler)
+    if matches!(kind, 0 | 2 | 4 | 6) && !a.read_used.is_empty() && src.chance(3, 16) {
+        let r = a.read_used[src.pick(a.read_used.len())];
+        return match kind {
+            0 => Ty::Read(r),
+            2 => Ty::ReadExpect(r),
+            4 => Ty::ReadH(r, a.handler()),
+            _ => Ty::OptRead(r),
+        };
+    }
+    let got = a.res();
+    if let (Some(r), true) = (got, matches!(kind, 0 | 2 | 4 | 6)) {
+        a.read_used.push(r);
+    }
+    match got {
         None => Ty::Unit,
         Some(r) => match kind {
             0 => Ty::Read(r),
@@ -101,6 +119,7 @@ pub fn gen_desc(stream: &[u16], arity: Option<usize>) -> Ty {
         next_res: 0,
         next_handler: 0,
         start: src.pick(NR),
+        read_used: vec![],
     };
     gen_ty(&mut src, &mut a, 0, arity)
 }
@@ -112,6 +131,7 @@ pub fn gen_big_derive(stream: &[u16], named: bool) -> Ty {
         next_res: 0,
         next_handler: 0,
         start: src.pick(NR),
+        read_used: vec![],
     };
     let n = 27 + src.pick(26);
     let members: Vec<Ty> = (0..n).map(|_| gen_leaf(&mut src, &mut a)).collect();
@@ -145,12 +165,27 @@ pub fn provides(t: &Ty) -> Vec<usize> {
         _ => vec![],
     }
 }
-pub fn optional(t: &Ty) -> Vec<usize> {
+fn optional_members(t: &Ty) -> Vec<usize> {
     match t {
         Ty::OptRead(r) | Ty::OptWrite(r) => vec![*r],
-        Ty::Tuple(m) | Ty::DeriveNamed(_, m) | Ty::DeriveTuple(_, m) => m.iter().flat_map(optional).collect(),
+        Ty::Tuple(m) | Ty::DeriveNamed(_, m) | Ty::DeriveTuple(_, m) => m.iter().flat_map(optional_members).collect(),
         _ => vec![],
     }
+}
+fn mandatory_members(t: &Ty) -> Vec<usize> {
+    match t {
+        Ty::Read(r) | Ty::Write(r) | Ty::ReadExpect(r) | Ty::WriteExpect(r) | Ty::ReadH(r, _) | Ty::WriteH(r, _) => vec![*r],
+        Ty::Tuple(m) | Ty::DeriveNamed(_, m) | Ty::DeriveTuple(_, m) => m.iter().flat_map(mandatory_members).collect(),
+        _ => vec![],
+    }
+}
+/// resources reached ONLY through Option forms
+pub fn optional(t: &Ty) -> Vec<usize> {
+    let must = mandatory_members(t);
+    let mut v: Vec<usize> = optional_members(t).into_iter().filter(|r| !must.contains(r)).collect();
+    v.sort();
+    v.dedup();
+    v
 }
 pub fn handlers(t: &Ty) -> Vec<usize> {
     match t {
